@@ -362,6 +362,7 @@ var ScopeProbes = []ScopeProbe{
 	{"ddl", "CREATE SEARCH INDEX i ON t (a) PARTITION BY b, INTERLEAVE IN p"},
 	{"ddl", "CREATE SEARCH INDEX i ON t (a) ORDER BY b, INTERLEAVE IN p"},
 	{"query", "SELECT * FROM (SELECT 1) AS a"},
+	{"type", "ARRAY<STRUCT< >>"}, {"type", "STRUCT<a INT64, b STRUCT< >>"}, {"type", "ARRAY<STRUCT</* c */>>"}, {"expr", "CAST(x AS ARRAY<STRUCT< >>)"}, {"type", "ARRAY<ARRAY<INT64 >>"},
 	{"query", "SELECT * FROM ((SELECT 1))"},
 	{"dml", "DELETE FROM t WHERE TRUE THEN RETURN WITH(a AS 1, a)"},
 	{"expr", "a[`offset`]"},
@@ -448,6 +449,16 @@ func RunC16(c *Ctx) {
 			c.Sample(gs.S.Entry, gs.Text, "grammar G sentence (re-spelled k times)")
 		}
 	})
+	// hand-written pairs around the tokens the lexer fuses (<> and >>)
+	if c.Shard == 0 {
+		for _, pr := range [][3]string{
+			{"type", "ARRAY<STRUCT<>>", "ARRAY<STRUCT< >>"}, {"type", "ARRAY<STRUCT<>>", "ARRAY< STRUCT < > >"}, {"type", "ARRAY<STRUCT<>>", "ARRAY<STRUCT</**/>>"},
+			{"type", "STRUCT<a INT64, b STRUCT<>>", "STRUCT<a INT64, b STRUCT< >>"}, {"type", "ARRAY<ARRAY<INT64>>", "ARRAY<ARRAY<INT64 >>"}, {"type", "ARRAY<ARRAY<INT64>>", "ARRAY<ARRAY<INT64> >"},
+			{"expr", "CAST(x AS ARRAY<STRUCT<>>)", "CAST(x AS ARRAY<STRUCT<\n>>)"}, {"expr", "a<>b", "a <> b"}, {"expr", "a>>b", "a >> b"}, {"expr", "STRUCT<>()", "STRUCT< >()"}, {"expr", "ARRAY<STRUCT<>>[]", "ARRAY<STRUCT< >>[]"},
+		} {
+			CheckC16Pair(c, pr[0], pr[1], pr[2])
+		}
+	}
 	// corpus: roles unknown, only reserved keywords and trivia are re-spelled
 	corpusWorkload(c, false, func(entry string, cc gen.CorpusCase) {
 		for j := 0; j < k; j++ {
